@@ -38,17 +38,20 @@ class Names:
         self.local = set()       # names declared in the module being generated
         self.imported = set()    # names imported into it
         self.reusable = set()    # value names declared by earlier modules
+        self.reusable_types = set()
 
     def next_module(self):
         self.reusable |= {x for x in self.local if x[0].islower()}
+        self.reusable_types |= {x for x in self.local if x[0].isupper()}
         self.local = set()
         self.imported = set()
 
     def fresh(self, upper=False, hyphen_ok=True):
         r = self.rng
         # sometimes reuse, in this module, a name another module declares (same-named symbols in different modules)
-        if not upper and self.reusable and r.random() < 0.2:
-            cand = r.choice(sorted(self.reusable))
+        pool = self.reusable_types if upper else self.reusable
+        if pool and r.random() < 0.2:
+            cand = r.choice(sorted(pool))
             if cand not in self.local and cand not in self.imported and (hyphen_ok or '-' not in cand):
                 self.local.add(cand)
                 return cand
@@ -81,7 +84,7 @@ def gen_syntax(rng, types, depth=0):
     r = rng.random()
     if types and r < 0.25:
         t = rng.choice(types)
-        return {'base': t['name'], 'kind': t['root'], 'user': True}
+        return {'base': t['name'], 'kind': t['root'], 'user': True, 'tmodule': t.get('module'), 'resolved': t.get('resolved')}
     base = rng.choice(INT_TYPES + STR_TYPES + OTHER_TYPES)
     s = {'base': base, 'kind': 'int' if base in INT_TYPES else 'str' if base in STR_TYPES else base}
     if base == 'INTEGER' and rng.random() < 0.6:
@@ -90,7 +93,8 @@ def gen_syntax(rng, types, depth=0):
     elif base in INT_TYPES and base not in ('Counter32', 'Counter64', 'TimeTicks') and rng.random() < 0.5:
         lo_ok = -2147483648 if base in ('Integer32', 'INTEGER') else 0
         hi_ok = 2147483647 if base in ('Integer32', 'INTEGER') else 4294967295
-        pts = sorted(rng.sample([lo_ok, hi_ok, 0, 1, 255, 65535, 100, 7, -1 if lo_ok < 0 else 2, 2147483647], rng.randint(1, 4)))
+        pts = sorted(rng.sample([lo_ok, hi_ok, 0, 1, 255, 65535, 100, 7, -1 if lo_ok < 0 else 2, 2147483647, 2147483646,
+                                 -2147483647 if lo_ok < 0 else 3], rng.randint(1, 4)))
         pts = [p for p in pts if lo_ok <= p <= hi_ok] or [0]
         rs = []
         i = 0
@@ -151,6 +155,9 @@ class SetGen:
         self.names = Names(rng)
         self.modules = {}
         self.truth = {}       # (module, name) -> dict(oid=[…], kind=…, …)
+        self.all_types = []
+        self.cur_types = []
+        self.cur_module = None
         self.n_modules = n_modules or rng.randint(1, 3)
         self.size = size or rng.randint(2, 10)
 
@@ -166,8 +173,10 @@ class SetGen:
         for mi, mname in enumerate(mods):
             m = {'name': mname, 'imports': {}, 'decls': []}
             self.modules[mname] = m
+            self.cur_module = mname
             types = []
             self.names.next_module()
+            self.cur_types = types
 
             def imp(frm, sym):
                 self.names.imported.add(sym)
@@ -229,20 +238,27 @@ class SetGen:
                          'description': self.text(), 'reference': self.text() if rng.random() < 0.5 else None, 'oidparts': parts}, oid)
                 elif r < 0.42:
                     # type declaration or textual convention, possibly derived from an earlier one
-                    syn = gen_syntax(rng, types)
+                    syn = gen_syntax(rng, self.visible_types(mname))
                     if syn['base'] in SMI_IMPORTABLE:
                         imp('SNMPv2-SMI', syn['base'])
                     if syn['base'] == 'DisplayString':
                         imp('SNMPv2-TC', 'DisplayString')
                     name = self.names.fresh(upper=True, hyphen_ok=False)
+                    if syn.get('user') and syn['base'] == name:
+                        continue
                     tc = rng.random() < 0.5
                     if tc:
                         imp('SNMPv2-TC', 'TEXTUAL-CONVENTION')
                     d = {'kind': 'textualConvention' if tc else 'typeDecl', 'name': name, 'syntax': syn,
                          'displayHint': rng.choice([None, '255a', '1x:', 'd-2']) if tc else None,
                          'status': 'current', 'description': self.text(), 'reference': None}
-                    add(d, None, syntax=syn)
-                    types.append({'name': name, 'root': syn.get('kind')})
+                    self.use_type(mname, imp, syn)
+                    resolved = syn.get('resolved') if syn.get('user') else syn
+                    add(d, None, syntax=syn, chain_base=resolved)
+                    ent = {'name': name, 'root': syn.get('kind'), 'module': mname, 'resolved': resolved,
+                           'parent': syn['base'] if syn.get('user') and syn.get('tmodule') in (None, mname) else None}
+                    types.append(ent)
+                    self.all_types.append(ent)
                 elif r < 0.62:
                     self.scalar(mname, add, imp, pick_parent, types, nodes)
                 elif r < 0.75:
@@ -255,10 +271,48 @@ class SetGen:
                     self.compliance(mname, add, imp, pick_parent, nodes)
             if self.chains and rng.random() < 0.8:
                 self.add_chain(mname, m, add, imp, pick_parent)
+            if self.chains and mi > 0 and rng.random() < 0.5:
+                self.add_clash(mname, m, add, imp, pick_parent)
             rng.shuffle(m['decls']) if rng.random() < 0.7 else None
         return self
 
     chains = True
+
+    def add_clash(self, mname, m, add, imp, pick_parent):
+        """this module imports a type whose chain, in its home module, passes through a type that has the
+        same name as a local type of this module with another base (same-named types in different modules)"""
+        rng = self.rng
+        cands = [t for t in self.all_types if t['module'] != mname and t.get('parent') and t.get('resolved')
+                 and self.importable(mname, t['module'], t['name']) and t['parent'] not in self.names.local
+                 and t['parent'] not in self.names.imported and t['name'] not in self.names.local]
+        if not cands:
+            return
+        ty = rng.choice(cands)
+        other_kind = 'str' if ty['resolved'].get('kind') == 'int' else 'int'
+        base = gen_syntax(rng, [])
+        while base.get('kind') != other_kind or 'enum' in base:
+            base = gen_syntax(rng, [])
+        if base['base'] in SMI_IMPORTABLE:
+            imp('SNMPv2-SMI', base['base'])
+        if base['base'] == 'DisplayString':
+            imp('SNMPv2-TC', 'DisplayString')
+        self.names.local.add(ty['parent'])
+        add({'kind': 'typeDecl', 'name': ty['parent'], 'syntax': base, 'displayHint': None, 'status': 'current',
+             'description': self.text(), 'reference': None}, None, syntax=base, chain_base=base)
+        ent = {'name': ty['parent'], 'root': base.get('kind'), 'module': mname, 'resolved': base, 'parent': None}
+        self.cur_types.append(ent)
+        self.all_types.append(ent)
+        imp(ty['module'], ty['name'])
+        imp('SNMPv2-SMI', 'OBJECT-TYPE')
+        uses = [({'base': ty['parent'], 'kind': base.get('kind'), 'user': True}, base),
+                ({'base': ty['name'], 'kind': ty['root'], 'user': True, 'tmodule': ty['module']}, ty['resolved'])]
+        rng.shuffle(uses)
+        for syn, resolved in uses:
+            parts, oid = pick_parent()
+            dv = self.defval(resolved) if 'bits' not in resolved else None
+            add({'kind': 'objectType', 'name': self.names.fresh(), 'syntax': syn, 'units': None, 'access': 'read-only',
+                 'status': 'current', 'description': self.text(), 'reference': None, 'oidparts': parts, 'defval': dv}, oid,
+                nodetype='scalar', syntax=syn, chain_base=resolved)
 
     def add_chain(self, mname, m, add, imp, pick_parent):
         """T1 ::= T2, …, Tk ::= <base>, plus an object of type T1: exercises chains of forward references"""
@@ -294,8 +348,21 @@ class SetGen:
         imports = self.modules[mname]['imports']
         return not any(sym in syms and f != frm for f, syms in imports.items())
 
+    def visible_types(self, mname):
+        local = list(self.cur_types)
+        foreign = [t for t in self.all_types if t['module'] != mname and self.importable(mname, t['module'], t['name'])
+                   and not any(l['name'] == t['name'] for l in local)]
+        return local + (foreign if self.rng.random() < 0.5 else [])
+
+    def use_type(self, mname, imp, syn):
+        if syn.get('user') and syn.get('tmodule') and syn['tmodule'] != mname:
+            imp(syn['tmodule'], syn['base'])
+
     def obj_syntax(self, imp, types):
+        if types:
+            types = self.visible_types(self.cur_module)
         syn = gen_syntax(self.rng, types)
+        self.use_type(self.cur_module, imp, syn)
         if syn['base'] in SMI_IMPORTABLE:
             imp('SNMPv2-SMI', syn['base'])
         if syn['base'] == 'DisplayString':
@@ -312,21 +379,30 @@ class SetGen:
              'access': rng.choice(['read-only', 'read-write', 'not-accessible', 'accessible-for-notify', 'read-create']),
              'status': rng.choice(['current', 'deprecated', 'obsolete']), 'description': self.text(),
              'reference': self.text() if rng.random() < 0.3 else None, 'oidparts': parts, 'defval': None}
-        if rng.random() < 0.35 and not syn.get('user'):
-            d['defval'] = self.defval(syn)
-        add(d, oid, nodetype='scalar', syntax=syn)
+        resolved = syn.get('resolved') if syn.get('user') else syn
+        if rng.random() < (0.7 if self.exotic_defvals else 0.35) and resolved and 'bits' not in (resolved if syn.get('user') else {}):
+            local = [n[1] for n in nodes if n[0] == mname]
+            d['defval'] = self.defval(resolved, local)
+        add(d, oid, nodetype='scalar', syntax=syn, chain_base=resolved)
 
-    def defval(self, syn):
+    exotic_defvals = False
+
+    def defval(self, syn, nodes=()):
         rng = self.rng
         if 'enum' in syn:
             return ('enum', rng.choice(syn['enum'])[0])
         if 'bits' in syn:
+            if self.exotic_defvals:
+                return ('bits', [b[0] for b in rng.sample(syn['bits'], rng.randint(1, len(syn['bits'])))])
             return None
+        if syn['base'] == 'OBJECT IDENTIFIER' and nodes and self.exotic_defvals:
+            return ('oid', rng.choice(nodes))
         if syn['kind'] == 'int':
             lo = syn['ranges'][0][0] if 'ranges' in syn else 0
             return rng.choice([('num', lo), ('hex', max(lo, 0)), ('bin', max(lo, 0))])
         if syn['kind'] == 'str':
-            return rng.choice([('str', 'abc'), ('hexstr', 'DEADBEEF'), ('binstr', '00001111')])
+            return rng.choice([('str', 'abc'), ('hexstr', 'DEADBEEF'), ('binstr', '00001111'), ('binstr', '0000000000000001'),
+                               ('hexstr', '00ff'), ('str', 'with space')])
         return None
 
     def table(self, mname, add, imp, pick_parent, types, nodes):
@@ -507,6 +583,10 @@ def defval_text(dv):
         return "'%s'H" % v
     if k == 'binstr':
         return "'%s'B" % v
+    if k == 'oid':
+        return v
+    if k == 'bits':
+        return '{ ' + ', '.join(v) + ' }'
     raise ValueError(dv)
 
 
